@@ -16,7 +16,8 @@ def sh(cmd, **kw):
 
 
 def main():
-    seeds = sys.argv[1:] or ["C%02d" % i for i in range(1, 21)]
+    write = "--no-write" not in sys.argv
+    seeds = [a for a in sys.argv[1:] if not a.startswith("--")] or ["C%02d" % i for i in range(1, 21)]
     if sh("git -C /repo status --porcelain").stdout.strip():
         sys.exit("refusing: /repo has uncommitted changes")
     for sd in seeds:
@@ -34,7 +35,8 @@ def main():
         meta = json.load(open(meta_p))
         meta["caught_by"] = ([{"check": "%s quick" % k[0], "violation": k[1] + (" (no-failing-input-found)" if k[2] else "")} for k in keys]
                              or "NOT CAUGHT by the quick tier of its own check")
-        json.dump(meta, open(meta_p, "w"), indent=1)
+        if write:
+            json.dump(meta, open(meta_p, "w"), indent=1)
         print(sd, "->", meta["caught_by"], flush=True)
     print("remember: re-run the checks on the clean tree before committing evidence")
 
